@@ -87,7 +87,13 @@ def cases(tier, rng):
                                             W.GREETING + bytes([1, 0]) * 3000 + bytes([0, 0]),
                                             # tens of thousands of well-formed commands that every recv loop has to skip
                                             W.GREETING + W.frame(bytes([5]) + b"READY", cmd=True) * 20000,
-                                            W.GREETING + W.frame(bytes([4]) + b"PING" + bytes([0, 0]), cmd=True) * 20000]:
+                                            W.GREETING + W.frame(bytes([4]) + b"PING" + bytes([0, 0]), cmd=True) * 20000,
+                                            # well-formed MESSAGES that the socket types give a meaning to (envelopes, subscriptions,
+                                            # identities) in degenerate shapes: empty frames, only empty frames, odd first octets
+                                            W.GREETING + W.msg([b""]), W.GREETING + W.msg([b"", b""]), W.GREETING + W.msg([b""] * 4),
+                                            W.GREETING + W.msg([b"\x01"]) + W.msg([b"\x00"]) + W.msg([b"\x00"]) + W.msg([b""]),
+                                            W.GREETING + W.msg([b"\x02junk"]) + W.msg([b"\xff" * 300]) + W.msg([b"x"] * 5),
+                                            W.GREETING + W.msg([b"", b"", b"q"]) + W.msg([b"q", b""]) + W.msg([b"", b"q", b""])]:
             for stage in (1, 2, 3):
                 if stage == 1:
                     raw = s[64:] if s.startswith(W.GREETING) else s
